@@ -149,6 +149,26 @@ ADDED2 = {
 }
 for k,v in ADDED2.items():
     CLAIMS[k]["text"] = CLAIMS[k]["text"] + v
+ADDED3 = {
+ "C01": " After the defect hunt: a function that hands the elements of a script container to a call chain that comes back to itself consults and extends a set of visited containers first, or consumes a slice argument (C01-REC; the array, hash and field printers do, 16 other walkers are recorded findings: a container that contains itself overflows the Go stack); panic obligations are named by the origin of the panic value, not by SSA register.",
+ "C02": " No Go append on the storage of one script array becomes the storage of another (C02-SHARE; three recorded findings: append, appendslice, concat).",
+ "C03": " The function whose captured scopes a look-up searches comes from a routine that steps over Go builtins to the calling compiled function (C03-LEXFN); let's right-hand sides are not evaluated inside the let's own scope (C03-LETSCOPE: recorded finding).",
+ "C05": " A Go builtin is called through userfun only inside a capture/restore bracket; a function that registers a user type and can fail afterwards has a deferred undo (C05-UNDO).",
+ "C06": " Every rune that emits a reader-prefix token (% ^ ~ @) is in the sign-context set; ParseInfix takes a sign that follows an operand itself instead of handing it to the Inf fusion (C06-INF); the colon DecodeAtom sets aside is emitted after a non-symbol atom (C06-COLON).",
+ "C09": " The jump is taken only when the name resolves to the running function (C09-SELF), PrepareCall is told exactly the length of the jump sequence, and every argument routine of CallFunction (lazy wrapping, name/type check, variadic packing) is also run before the jump.",
+ "C10": " SetInt follows OverflowInt or a known int64, int64(f) follows a two-sided range test, float64(i) a round-trip test (C10-RANGE); a field is reached through its embed path in both directions (C10-EMBED).",
+ "C11": " User keys are compared with the reserved names before they are written (C11-RESV); number types without an arm in the encoder print digits only; no hash is given another hash's order list or buckets (C11-SHARE).",
+ "C12": " No data printer pastes the raw text of a string value into its output (C12-RAW).",
+ "C13": " The look-ahead that asks for more input is taken by the expression parser only in the arm of an opening token or at depth above 0 (C13-TOPEND); a nested expression is read only by a routine that waits for a token (C13-OPERAND); every direct look-ahead inside an open construct tests for TokenEnd (C13-PEEKEND).",
+ "C14": " Symbol keys are matched by number through a comparator that decides two symbols itself (C14-SYM); no hash is given another hash's order list or buckets (C14-SHARE).",
+ "C15": " The operand reader of ~ ~@ ^ % drops comments (C15-OPERAND); defmac refuses every head the call generator's switch compiles itself (C15-FORMS); the prefix runes are sign contexts (C15-SIGN).",
+ "C16": " The value pushed for a compiled function has passed through RValue in the caller, and so has the value a forced promise memoises (C16-DOT); laziness is asked for the parameter a label names (C16-NAMED).",
+ "C17": " Instance type and constructor definition are not looked up by name in the package-level registry (C17-IDENT: two recorded findings).",
+ "C18": " The captured scopes searched for a dot path handed to a builtin are those of the calling compiled function (C18-LEXFN).",
+ "C19": " Symbol keys are matched by number (C19-KEY); Compare does not dereference symbol operands (C19-DEREF: recorded finding).",
+}
+for k,v in ADDED3.items():
+    CLAIMS[k]["text"] = CLAIMS[k]["text"] + v
 NA_DEFAULT="rules not built yet (build in progress; see DESIGN.md §7)"
 NA = {}
 
